@@ -141,6 +141,10 @@ class Tr:
             return "(EList %s)" % self.exprs(e.elts)
         if isinstance(e, ast.Set):
             return "(ESet %s)" % self.exprs(e.elts)
+        if isinstance(e, ast.Tuple):
+            return "(ETuple %s)" % self.exprs(e.elts)
+        if isinstance(e, ast.BinOp) and isinstance(e.op, ast.Add):
+            return "(EAdd %s %s)" % (self.expr(e.left), self.expr(e.right))
         if isinstance(e, ast.Dict):
             if all(k is not None for k in e.keys):
                 return "(EDict [%s])" % "; ".join("(%s, %s)" % (self.expr(k), self.expr(v)) for k, v in zip(e.keys, e.values))
